@@ -35,7 +35,7 @@ for p in props:
 claimed = {c["property_id"] for c in checks}
 m = {"version": 1, "setup_cmd": "cd /verif && ./verif setup",
      "hooks": {"guard": "verif", "enable": "go build -tags verif (harness module /verif/harness, replace => /repo)",
-               "baseline_off_cmd": base["cmd"], "source_commits": ["7ff240e"], "add_only": True},
+               "baseline_off_cmd": base["cmd"], "source_commits": ["7ff240e", "9ed9420", "a1bb832"], "add_only": True},
      "engines": [{"name": ENGINE, "path": "/verif/verif", "serves_properties": sorted(claimed),
                   "kind_free_text": "explicit TLA+ specs (spec/*.tla) checked by TLC; Go harness (harness/) drives the real code; Python driver (lib/, checks/)"}],
      "checks": checks,
